@@ -37,6 +37,10 @@ def system_pcs(chord, note):
 def step(pcs, last, k):
     """k-th system pitch strictly above (k>0) / below (k<0) `last`; k == 0: nearest, ties up"""
     S = set(pcs)
+    if not S:
+        # a figure whose omissions remove every chord tone leaves an empty chord- / bass-tone system: nothing to step
+        # along (the library raises ZeroDivisionError there); without this guard the loops below never end
+        raise ZeroDivisionError('empty system')
     if k > 0:
         x = last
         while k:
@@ -97,6 +101,8 @@ def check_inverse(inp):
     from musiclang import Note
     c, n = mk(inp)
     pcs = system_pcs(c, n)
+    if not pcs:
+        return None          # empty system (every chord tone omitted): outside the claim
     p = inp['last']
     while p % 12 not in pcs:
         p += 1
@@ -151,7 +157,7 @@ def gen_triples(ctx, n):
         pcs = system_pcs(c, note)
         x = rng.random()
         last = rng.randint(-72, 84)
-        if x < 0.5:  # on the system
+        if x < 0.5 and pcs:  # on the system (an empty system - every chord tone omitted - has no such pitch)
             while last % 12 not in pcs:
                 last += 1
         inp = {'elem': int(c.element), 'ext': text, 'deg': int(c.tonality.degree), 'mode': c.tonality.mode,
